@@ -460,9 +460,48 @@ pub fn specs(thorough: bool) -> Vec<Spec> {
     v
 }
 
+/// Profiles on both sides of the acceptance frontier: the displacement equals the acceleration
+/// plus deceleration distance times (1 + delta) or plus a small absolute amount (near-triangular
+/// moves with a vanishing or very short cruise phase), in both directions.
+pub fn frontier_specs() -> Vec<Spec> {
+    let mut v = Vec::new();
+    for &vm in &[1e-2f32, 1.0, 30.0, 1e3] {
+        for &am in &[1e-2f32, 1.0, 1e3] {
+            for &f0 in &[-0.5f32, 0.0, 0.5, 1.0] {
+                for &f1 in &[-0.5f32, 0.0, 0.5, 1.0] {
+                    let (v0, v1) = (f0 * vm, f1 * vm);
+                    for dir in [1.0f64, -1.0] {
+                        // signed velocities along the direction of travel
+                        let (a0, a1) = (v0 as f64 * dir, v1 as f64 * dir);
+                        let (vmx, amx) = (vm as f64, am as f64);
+                        let dstar = (vmx * vmx - a0 * a0) / (2.0 * amx) + (vmx * vmx - a1 * a1) / (2.0 * amx);
+                        let mut dps: Vec<f64> = Vec::new();
+                        for delta in [-1e-3, -1e-5, 1e-6, 1e-5, 1e-4, 1e-3, 1e-2] {
+                            dps.push(dstar * (1.0 + delta));
+                        }
+                        for abs in [5e-4 * vmx, 0.5 * vmx * 1e-3, 0.5, 1e-3] {
+                            dps.push(dstar + abs);
+                        }
+                        for dp in dps {
+                            for &p0 in &[0.0f32, -250.0] {
+                                let p1 = (p0 as f64 + dir * dp) as f32;
+                                if p1.abs() <= 2.0e4 && p1 != p0 {
+                                    v.push(Spec { p0, v0, p1, v1, a1: 0.0, vmax: vm, amax: am });
+                                }
+                            }
+                        }
+                    }
+                }
+            }
+        }
+    }
+    v
+}
+
 pub fn run(ctx: &Ctx, second: bool) -> Vec<Eng> {
     let budget = Budget::secs(if ctx.thorough { 2000 } else { 120 });
-    let all = specs(ctx.thorough);
+    let mut all = specs(ctx.thorough);
+    let nf = { let f = frontier_specs(); let n = f.len(); all.extend(f); n };
     let mut e = if !second {
         Eng::new(
             "c06-accessor-agreement",
@@ -476,7 +515,7 @@ pub fn run(ctx: &Ctx, second: bool) -> Vec<Eng> {
             "",
         )
     };
-    e.bounds = format!("{} constructor calls", all.len());
+    e.bounds = format!("{} constructor calls ({} of them placed on both sides of the acceptance frontier: near-triangular moves)", all.len(), nf);
     par_cases(&mut e, &all, budget, |s, e| {
         e.executions += 1;
         e.states += 1;
